@@ -1,4 +1,5 @@
 CONSTANTS
+  Logs = FALSE
   RecordHist = FALSE
   MaxInt = 0
   AllowDie = TRUE
